@@ -77,6 +77,30 @@ def run(rep, tier, rng):
                             {"op": "sp-power", "alg": al, "v": v, "e": e, "obs": c.obs_json(o2),
                              "py": f"(SemanticPointer(v, vocab=spa.Vocabulary(len(v), algebra=A)) ** {e}).v"},
                             ("sp-power", al, tuple(v), e), nontrivial=any(v))
+                        # a vocabulary-less pointer with an explicit algebra: the power stays in that algebra, so binding it on gives
+                        # the next power (for e >= 1; the result's own algebra is what the further binding uses)
+                        pf = SemanticPointer(vf, algebra=A)
+                        o3 = c.observe(lambda: (pf ** e).v)
+                        add(f"check_power {al} {c.zlist(v)} {c.b(e < 0)} {c.nat(abs(e))} {tol} {obs_t(o3)}",
+                            {"op": "sp-power", "alg": al, "v": v, "e": e, "obs": c.obs_json(o3),
+                             "py": f"(SemanticPointer(v, algebra=A) ** {e}).v"},
+                            ("sp-power-novocab", al, tuple(v), e), nontrivial=any(v))
+                        if o3[0] == "ok":
+                            rp = pf ** e
+                            rep.case(("sp-power-algebra", al, tuple(v), e))
+                            rep.count("sp-power-keeps-algebra")
+                            if rp.algebra is not A or rp.vocab is not None:
+                                rep.violation(f"{al}: SemanticPointer(v, algebra=A) ** {e} is a pointer of algebra {type(rp.algebra).__name__}",
+                                              {"case": {"alg": al, "v": v, "e": e},
+                                               "python": algs.PRELUDE + f"from nengo_spa.semantic_pointer import SemanticPointer\nA = {algs.alg_py(al)}\n"
+                                               f"p = SemanticPointer(np.array({v}, float), algebra=A)\nassert (p ** {e}).algebra is A, 'the power left the algebra'\n"
+                                               f"assert np.allclose(((p ** 1) * p).v, A.bind(p.v, p.v)), 'binding a power on uses another algebra'\n"})
+                            if e >= 1:
+                                o4 = c.observe(lambda: (rp * pf).v)
+                                add(f"check_power {al} {c.zlist(v)} false {c.nat(e + 1)} {tol} {obs_t(o4)}",
+                                    {"op": "sp-power", "alg": al, "v": v, "e": e + 1, "obs": c.obs_json(o4),
+                                     "py": f"((SemanticPointer(v, algebra=A) ** {e}) * SemanticPointer(v, algebra=A)).v"},
+                                    ("sp-power-then-bind", al, tuple(v), e), nontrivial=any(v))
             # ---- the inherited default implementation (an algebra that does not override binding_power) ---------
             if al in ("AHrr", "ATvtb") and d <= 9:
                 from nengo_spa.algebras.base import AbstractAlgebra
